@@ -1210,11 +1210,12 @@ def _judge(chk, recs, canaries, bases, *, label, what):
 # ------------------------------------------------------------------ design level
 def _design(thorough):
     """run the design models concurrently (each TLC with a few workers) while the real code is observed"""
-    ex = cf.ThreadPoolExecutor(max_workers=6)
+    ex = cf.ThreadPoolExecutor(max_workers=7)
     w = 6
     futs = {
         "small": ex.submit(lib.tlc_design, "TokLegacyMC", "TokLegacy_small.cfg", workers=w, tag="s", xmx="2g"),
         "nopremise": ex.submit(lib.tlc_expect_violation, "TokLegacyMC", "TokLegacy_nopremise.cfg", "RoundTripNoPremise", workers=2, tag="np", xmx="1g"),
+        "sq": ex.submit(lib.tlc_design, "TokLegacyMC", "TokLegacy_sq.cfg", workers=2, tag="sqo", xmx="1g"),
         "sqinfer": ex.submit(lib.tlc_expect_violation, "TokLegacyMC", "TokLegacy_sqinfer.cfg", "SquareRoundTrip", workers=1, tag="sq", xmx="1g"),
         "ds": ex.submit(lib.tlc_design, "TokLegacyMC", "TokLegacy_ds.cfg", workers=2, tag="ds", xmx="1g"),
         "ds_broken": ex.submit(lib.tlc_expect_violation, "TokLegacyMC", "TokLegacy_ds_broken.cfg", "DSAccepted", workers=2, tag="dsb", xmx="1g"),
@@ -1228,9 +1229,13 @@ def _collect_design(chk, ex, futs):
     r = futs["small"].result()
     if r.distinct < 40000:
         raise lib.MachineryError(f"TokLegacy_small explored only {r.distinct} states (vacuous?)")
-    chk.add_model("TokLegacy/small", r, "all graphs of 1x1,1x2,2x1,1x3,3x1,2x2 x 3 kinds (all start/end pairs, all cell sequences <= 2) x {UT,CTT} x every admissible emission: RoundTrip (premise), RoundTripIff, SquareInference, InEmitExact, WrongStyleRejected, EquivExact, BagNotSet")
+    chk.add_model("TokLegacy/small", r, "all graphs of 1x1,1x2,2x1,1x3,3x1,2x2 x 3 kinds (all start/end pairs, all cell sequences <= 2) x {UT,CTT} x every admissible emission: RoundTrip (premise), RoundTripIff, InEmitExact, WrongStyleRejected, EquivExact, BagNotSet")
     r = futs["nopremise"].result()
     chk.add_model("TokLegacy/nopremise (must fail)", r, "without the premise TLC finds a maze whose emission parses to a smaller grid: RoundTripNoPremise violated as required")
+    r = futs["sq"].result()
+    if r.distinct < 3000:
+        raise lib.MachineryError(f"TokLegacy_sq explored only {r.distinct} states (vacuous?)")
+    chk.add_model("TokLegacy/square inference", r, "the implementation's one-side grid inference (ParseSq): under the premise the re-parse of every emission is PadSq(m), the maze on the square grid of side max(R, C); PadSq(m) = m iff the maze is square (shapes 1x1..3x1, 2x2, three kinds, UT + CTT)")
     r = futs["sqinfer"].result()
     chk.add_model("TokLegacy/square inference (must fail)", r, "with the implementation's one-side grid inference (ParseSq) an oblong maze satisfying the premise does not come back: SquareRoundTrip violated as required - the round trip is judged on square mazes only (oblong: Layer M, PadSq)")
     r = futs["ds"].result()
